@@ -184,6 +184,35 @@ Proof.
   rewrite tab_length, Nat.eqb_refl. repeat split; try (now rewrite tab_const).
 Qed.
 
+(* a function that answers with the same number at every time stands for that scalar under EVERY option: with smearing (one more
+   value), and with sub-sample integration, where the mean of t_sub copies of c is c (D28: the implementation used to raise) *)
+Lemma qsum_repeat c n : qsum (repeat c n) == nq n * c.
+Proof.
+  induction n as [|n IH]; cbn [repeat qsum fold_right]; [unfold nq; cbn; ring|].
+  fold (qsum (repeat c n)). rewrite IH. unfold nq. rewrite Nat2Z.inj_succ. unfold Z.succ. rewrite inject_Z_plus. ring.
+Qed.
+Lemma submean_const fr o c i : (0 < t_sub o)%nat -> submean fr o (fun _ => c) i == c.
+Proof.
+  intros Hk. unfold submean, qmean. rewrite tab_const, repeat_length, qsum_repeat. field.
+  unfold nq. intros E. unfold Qeq in E. cbn in E. lia.
+Qed.
+Theorem constant_function fr o c :
+  (integrate_path o = false -> path_values fr o (CFun (fun _ => c)) = path_values fr o (CScal c)) /\
+  (integrate_t o = false -> t_values fr o (CFun (fun _ => c)) = t_values fr o (CScal c)) /\
+  ((0 < t_sub o)%nat -> exists l, path_values fr o (CFun (fun _ => c)) = Ok l /\ length l = teff fr o /\ forall i, (i < teff fr o)%nat -> nth i l 0 == c) /\
+  ((0 < t_sub o)%nat -> exists l, t_values fr o (CFun (fun _ => c)) = Ok l /\ length l = T fr /\ forall i, (i < T fr)%nat -> nth i l 0 == c).
+Proof.
+  unfold path_values, t_values. repeat split.
+  - intros E. rewrite E. now rewrite tab_const.
+  - intros E. rewrite E. now rewrite tab_const.
+  - intros Hk. eexists. split; [reflexivity|]. destruct (integrate_path o).
+    + split; [apply tab_length|]. intros i Hi. rewrite nth_tab by exact Hi. now apply submean_const.
+    + split; [apply tab_length|]. intros i Hi. rewrite nth_tab by exact Hi. reflexivity.
+  - intros Hk. eexists. split; [reflexivity|]. destruct (integrate_t o).
+    + split; [apply tab_length|]. intros i Hi. rewrite nth_tab by exact Hi. now apply submean_const.
+    + split; [apply tab_length|]. intros i Hi. rewrite nth_tab by exact Hi. reflexivity.
+Qed.
+
 (* an array path of T+1 values is what Doppler smearing takes; T values without smearing *)
 Theorem smear_array_path fr o l : path_values fr o (CArr l) = (if Nat.eqb (length l) (if smear o then S (T fr) else T fr) then Ok l else Err ValueError).
 Proof. reflexivity. Qed.
